@@ -197,6 +197,11 @@ def descs_struct(tier):
                 # single-output variant; the other sinks become unloaded logic next to the cone (legal, lint-clean)
                 yield space.to_desc(I, gates, outputs=[I + len(gates) - 1])
     yield EXAMPLE
+    # outputs whose cone is a single node: an input that is an output, a constant that is an output
+    for gates in space.circuits(2, 2, types=("nand", "xor", "not"), max_arity=2, min_gates=1):
+        yield space.to_desc(2, gates, outputs="all")
+    for gates in space.circuits(1, 1, types=("nand", "xor", "not"), max_arity=2, consts=("0", "1"), min_gates=1):
+        yield space.to_desc(1, gates, consts=("0", "1"), outputs="all")
     # constants inside output cones
     for gates in space.circuits(2, 2, types=("nand", "nor", "xor", "not", "and"), max_arity=2, consts=("0", "1"), min_gates=1):
         d = space.to_desc(2, gates, consts=("0", "1"), outputs="sinks")
